@@ -12,13 +12,15 @@ pub static mut POS: usize = 0;
 /// Backing store for symbolic token payloads.
 pub static mut PAYLOAD: [[u8; 12]; KMAX] = [[0; 12]; KMAX];
 
+/// Install a script (loop-free: harness unwind bounds need not cover KMAX).
 pub fn set_script(items: &[Item]) {
+    let mut a: [Item; KMAX] = [None; KMAX];
+    macro_rules! cp {
+        ($($i:expr),*) => { $( if items.len() > $i { a[$i] = items[$i]; } )* };
+    }
+    cp!(0, 1, 2, 3, 4, 5, 6, 7);
     unsafe {
-        let mut i = 0;
-        while i < KMAX {
-            SCRIPT[i] = if i < items.len() { items[i] } else { None };
-            i += 1;
-        }
+        SCRIPT = a;
         POS = 0;
     }
 }
